@@ -407,11 +407,19 @@ def run(ctx):
                       "divergence(s) %s" % "+".join(tags),
                       {"cluster": clusters[i], "flow": f, "how": "bin/check C16 --replay <this file>"}, found=True,
                       theorem="enforces", tags=tags)
-    for i, f, why in unexplained[:5]:
+    real = [u for u in unexplained if not u[2]["reference_agrees"]]
+    for i, f, why in real[:5]:
         ctx.violation("monitor", "installed rules and NetworkPolicy semantics disagree on a flow in a way none of the known "
-                      "divergences K6a-e,g explains (or the rules no longer behave as galaxy's modelled compilation)",
+                      "divergences K6a-e,g explains",
                       {"cluster": clusters[i], "flow": f, "why": why, "how": "bin/check C16 --replay <this file>"},
                       found=True, theorem="enforces")
+    stale = [u for u in unexplained if u[2]["reference_agrees"]]
+    if stale:
+        # the implementation agrees with the reference where the model of galaxy's compilation does not
+        ctx.violation("correspondence", "on %d flow(s) the installed rules no longer behave as galaxy's modelled compilation "
+                      "(they agree with the NetworkPolicy reference there): model or known findings are stale" % len(stale),
+                      {"examples": [{"cluster": clusters[i], "flow": f, "why": why} for i, f, why in stale[:3]]},
+                      found=bool(real), theorem="C16 correspondence (k8s_allows_with all_devs)")
     if bad_corr:
         ex = [{"cluster": clusters[i]} for i in bad_corr[:3]]
         ctx.violation("correspondence", "the model's installed kernel and the implementation's dumped rules/sets differ on %d "
